@@ -10,6 +10,9 @@ import Fbr.Lemmas.PtHostDirect
 import Fbr.Lemmas.PtHostSpec
 import Fbr.Lemmas.PtHostNames
 import Fbr.Lemmas.HostRef
+import Fbr.Lemmas.PtHostOwner
+import Fbr.Lemmas.HostRefOwner
+import Fbr.Lemmas.HostRefDemo
 
 namespace Fbr.Thm.C05
 open Fbr.Host Fbr.PtHost
@@ -55,15 +58,9 @@ theorem scope_runs_as_caller (H : HostOps σ) [HostLaws H] (c0 : Creds) (hroot :
     by_cases hu : uid = 0 <;> by_cases hgz : gid = 0 <;> simp [inScope, Creds.afterSetuid, hu, hgz, r1, r2]
   · rw [hg] at he; cases he
 
-/-- **created_objects_owned_by_caller (partial).**  What is proved: the creating system call of
-    each creating request is, by definition of the model, the body of
-    `withCreds ctx.uid ctx.gid` (this theorem), and inside such a scope the thread's effective ids
-    are the caller's (`scope_runs_as_caller`), all exits of the scope being balanced
-    (`creds_restored`).  What is not proved in Lean: a trace-level statement "no other creating
-    call is issued" and the host law "a new object is owned by the creating thread's fsuid/fsgid
-    (or the directory's gid when set-gid)"; both are checked against the real code and kernel by the
-    correspondence run (literal call traces; direct oracle `C05:owner:<op>`). -/
-theorem created_objects_owned_by_caller_partial (cfg : Cfg) (ctx : Ctx) (p : Nat) (n t : Name) (m r u f ff : Nat) :
+/-- the creating system call of each creating request is, by definition of the model, the body of
+    `withCreds ctx.uid ctx.gid` (the `set_creds` scope of `scope_runs_as_caller`) -/
+theorem creating_calls_are_scoped (cfg : Cfg) (ctx : Ctx) (p : Nat) (n t : Name) (m r u f ff : Nat) :
     mkdir cfg ctx p n m u = (do
       validateName cfg n
       let d ← inodeData p
@@ -98,6 +95,45 @@ theorem created_objects_owned_by_caller_partial (cfg : Cfg) (ctx : Ctx) (p : Nat
       let h ← createHandle cfg entry.inode file f
       pure (.created entry h (createOpts cfg.cache))) :=
   ⟨rfl, rfl, rfl, rfl⟩
+
+/-- **created_objects_owned_by_caller.**  For every host satisfying `HostLaws` and the two
+    creation laws `OwnerLaws` ("only mkdirat / mknodat / symlinkat / openat(O_CREAT) bring an object
+    into existence" and "a new object carries the creating thread's effective uid, and its
+    effective gid or — set-gid directory — the directory's group"; both proved of the reference FS,
+    `Fbr.Host.Ref.ownerLaws`), every configuration, every state of the tables and every request
+    made for a caller (`r.caller = some ctx`: MKDIR, MKNOD, SYMLINK, CREATE), served by a thread in
+    the root state: **every object that comes into existence at any step of the request** — whatever
+    the host answers along the way, on every path — is, at that moment, owned by `ctx.uid`, with
+    group `ctx.gid` (or the group of the set-gid directory it was created in).  Trace level
+    (`NewOwned` = at every call of the run, in the state it is issued in); the proof places each
+    creating call inside the `set_creds` scope entered from the root state, where the effective ids
+    are the caller's (`steps_withCreds`, `inScope_ids`), and shows that no other call of the request
+    can create anything. -/
+theorem created_objects_owned_by_caller (H : HostOps σ) [HostLaws H] [OwnerLaws H] (cfg : Cfg) (pt : PtState) (r : Req)
+    (ctx : Ctx) (hr : r.caller = some ctx) (h : σ) (hroot : (H.creds h).Root) :
+    NewOwned H ctx.uid ctx.gid (step cfg pt r) h := by
+  have := reqOwned (H := H) cfg pt r h hroot
+  unfold ReqOwned at this
+  rw [hr] at this
+  exact this
+
+/-- …and every other request (LOOKUP, OPEN, LINK, RENAME, SETATTR, WRITE, …) brings no object into
+    existence at any step -/
+theorem other_requests_create_nothing (H : HostOps σ) [HostLaws H] [OwnerLaws H] (cfg : Cfg) (pt : PtState) (r : Req)
+    (hr : r.caller = none) (h : σ) (hroot : (H.creds h).Root) :
+    NoNew H (step cfg pt r) h := by
+  have := reqOwned (H := H) cfg pt r h hroot
+  unfold ReqOwned at this
+  rw [hr] at this
+  exact this
+
+/-- **created_objects_owned_by_caller** over every history: started in the root state, request
+    after request (the credentials are the root's again after each, `creds_restored`), whatever is
+    created during a request made for a caller is that caller's, and nothing is created during any
+    other request (`HistOwned` = `ReqOwned` at every request of the history) -/
+theorem created_objects_owned_by_caller_history (H : HostOps σ) [HostLaws H] [OwnerLaws H] (cfg : Cfg) (rs : List Req)
+    (pt : PtState) (h : σ) (hroot : (H.creds h).Root) : HistOwned H cfg pt h rs :=
+  histOwned cfg rs pt h hroot
 
 /-! ## special files -/
 
@@ -322,6 +358,19 @@ theorem unlink_is_the_direct_call (cfg : Cfg) (s : PtState) (p : Nat) (n : Name)
 
 /-- the laws are satisfiable: the reference FS is an instance -/
 example (sent : Obj → Bool) (root : Obj) : HostLaws (Ref.ops sent root) := inferInstance
+
+/-- the creation laws are satisfiable: the reference FS is an instance -/
+example (sent : Obj → Bool) (root : Obj) : OwnerLaws (Ref.ops sent root) := inferInstance
+
+/-- ownership is not vacuous: on the demo host of C06 with a world-writable export root, MKDIR "b"
+    for uid 1000 / gid 1001 succeeds and the new directory (object 5) belongs to 1000:1001, while
+    the serving thread is root again afterwards -/
+example :
+    let h0 := (Ref.stepCore Ref.demo (.fchmodatProc 0 0o777 0)).2
+    let p := step {} (initState (.file 0) 2 16877) (.mkdir ⟨1000, 1001⟩ 1 [98] 0o755 0o022)
+    (h0.nodes 5).isNone = true ∧
+    ((fin (Ref.ops Ref.demoSent 2) p h0).nodes 5).map (fun n => (n.uid, n.gid, n.kind)) = some (1000, 1001, .dir) ∧
+    (fin (Ref.ops Ref.demoSent 2) p h0).creds.euid = 0 := by decide
 
 /-- a request that really switches credentials: MKDIR by uid 1000 / gid 1001 issues, for any
     answers, `setresgid(1001)` first and `setresuid(1000)` second (so `creds_restored` is about
